@@ -2,6 +2,7 @@
 
 * the keys of the `params` dictionary that DataLoader._read() stores with every cache entry and compares on later
   reads (dict literal + any `params.update({...})` / `params['k'] = ...` before the comparison), via `ast`;
+* whether source_ids=None is replaced by the reader's sampled source identifiers or kept as "no source filter";
 * whether the loop's "maximum reached" break is guarded so that it does not fire while the last-N circular buffer is in
   use (structural test on the `if message_count == abs(max_messages)` statement), via `ast`;
 * the message-type tables the function consults: message_type_to_class keys, messages_with_p1_time,
@@ -127,11 +128,27 @@ def break_guarded(f):
     return hits[0]
 
 
+def none_sources_sampled(f):
+    """True when `_read` replaces source_ids=None by the reader's sampled set (`source_ids = ...get_available_source_ids()`
+    under `if source_ids is None`); False when None is kept (no source filter)."""
+    hits = []
+    for n in ast.walk(f):
+        if isinstance(n, ast.If) and ast.unparse(n.test).replace(' ', '') == 'source_idsisNone':
+            body = ' ; '.join(ast.unparse(b) for b in n.body)
+            hits.append('get_available_source_ids' in body and 'source_ids =' in body)
+            if not hits[-1] and not all(isinstance(b, (ast.Pass, ast.Expr)) or 'requested_source_ids = None' in ast.unparse(b) for b in n.body):
+                raise RuntimeError('gen_c12: unrecognised handling of source_ids is None: %s' % body[:200])
+    if not hits:
+        raise RuntimeError('gen_c12: `if source_ids is None` not found in _read')
+    return hits[0]
+
+
 def generate():
     txt = vf.repo_file(SRC)
     f = _read_func(ast.parse(txt))
     keys = params_keys(f)
     guarded = break_guarded(f)
+    sampled = none_sources_sampled(f)
     rc, so, se = vf.sh([vf.PY, '-c', PROBE], env=vf.IMPL_ENV, timeout=120)
     if rc != 0:
         raise RuntimeError('gen_c12: probing the message registry failed: ' + se[-1500:])
@@ -150,6 +167,7 @@ def generate():
     for k in ('message_types', 'return_numpy', 'keep_messages', 'time_align', 'aligned_message_types'):
         text += 'Definition key_has_%s : bool := %s.\n' % (k, 'true' if k in keys else 'false')
     text += 'Definition break_guarded_by_deque : bool := %s.\n' % ('true' if guarded else 'false')
+    text += 'Definition none_sources_sampled : bool := %s.\n' % ('true' if sampled else 'false')
     text += 'Definition all_types : list N := %s.\n' % nl(info['all'])
     text += 'Definition p1_types : list N := %s.\n' % nl(info['p1'])
     text += 'Definition sys_types : list N := %s.\n' % nl(info['sys'])
@@ -159,7 +177,7 @@ def generate():
         info['align']['NONE'], info['align']['DROP'], info['align']['INSERT'])
     text += 'Definition source_probe_count : nat := %d.\n' % int(info['probe'])
     vf.write_if_changed(os.path.join(vf.THEORIES, 'Generated', 'DataLoaderConsts.v'), text)
-    return {'params_keys': keys, 'break_guarded_by_deque': guarded, 'names': info['names'], 'n_types': len(info['all']),
+    return {'params_keys': keys, 'break_guarded_by_deque': guarded, 'none_sources_sampled': sampled, 'names': info['names'], 'n_types': len(info['all']),
             'probe': int(info['probe'])}
 
 
